@@ -326,6 +326,9 @@ class Runner:
                 self.inconclusive.append({'target': t.name, 'what': 'worker %d: a case exceeded the %ds CPU budget; the rest of that worker\'s cases were not run (not a violation for this property)' % (w, t.budget),
                                           'input_sha1': __import__('hashlib').sha1(data).hexdigest()})
                 continue
+            if rc == 97 and not t.spec.get('stall_is_violation'):
+                self.inconclusive.append({'target': t.name, 'what': 'worker %d: a case blocked with the CPU idle (not a violation for this target); the rest of that worker\'s cases were not run' % w, 'input_sha1': __import__('hashlib').sha1(data).hexdigest()})
+                continue
             if self.handle_candidate(t, data, 'generation worker %d' % w):
                 continue
             if rc == 97:
